@@ -532,6 +532,13 @@ type Lemma struct {
 	Uses    []string // names of lemmas to assume (already proved)
 	Induct  string   // induction variable (int, >= 0): proves P(0) and P(n)=>P(n+1)
 	Assumed bool     // stated without proof (listed in the trusted base)
+	Instances []LemmaInst // explicit instances of other lemmas: name, variable, expression
+}
+
+type LemmaInst struct {
+	Name string
+	Var  string
+	E    Expr
 }
 
 type AtCall struct {
@@ -563,7 +570,9 @@ type Contract struct {
 	NoSafe   bool // skip safety sweep
 	Pure     bool
 	MayPanic bool
+	Opaque   []string // spec functions whose definitions are hidden in this function's VCs
 	Uses     []string // lemmas assumed at entry (each proved separately)
+	Scenarios map[string]string // clause label -> scenario file under /verif/scenarios
 	Ghost    []string // ghost variables this function may change (with ensures about them)
 	File     string
 	Line     int
@@ -708,6 +717,18 @@ func (cs *ContractSet) parseContractText(pkgPath, file string, lines []string, l
 					curLemma.Induct = rest
 				case "assumed":
 					curLemma.Assumed = true
+				case "instance:":
+					// instance: <lemma> <var> = <expr>
+					name, bind, _ := strings.Cut(rest, " ")
+					v, ex, ok := strings.Cut(bind, "=")
+					if !ok {
+						return fmt.Errorf("%s:%d: instance: <lemma> <var> = <expr>", file, line)
+					}
+					pe, err := parseExpr(strings.TrimSpace(ex))
+					if err != nil {
+						return fmt.Errorf("%s:%d: %v", file, line, err)
+					}
+					curLemma.Instances = append(curLemma.Instances, LemmaInst{Name: name, Var: strings.TrimSpace(v), E: pe})
 				default:
 					return fmt.Errorf("%s:%d: unknown lemma attribute %q", file, line, kw)
 				}
@@ -727,6 +748,15 @@ func (cs *ContractSet) parseContractText(pkgPath, file string, lines []string, l
 				cur.Floats = strings.Fields(strings.ReplaceAll(rest, ",", " "))
 			case "uses:":
 				cur.Uses = strings.Fields(strings.ReplaceAll(rest, ",", " "))
+			case "opaque:":
+				cur.Opaque = strings.Fields(strings.ReplaceAll(rest, ",", " "))
+			case "scenario":
+				// scenario [label] file
+				lab, file, _ := strings.Cut(strings.TrimPrefix(rest, "["), "]")
+				if cur.Scenarios == nil {
+					cur.Scenarios = map[string]string{}
+				}
+				cur.Scenarios[strings.TrimSpace(lab)] = strings.TrimSpace(file)
 			case "trusted":
 				cur.Trusted = true
 			case "nosafe":
